@@ -292,6 +292,18 @@ func scnDidReg(ctx *check.JobCtx) {
 			AccountAuth: &didtypes.AccountAuth{AccountDid: fmt.Sprintf("did:key:accdid%d", accDidSeq), AccountEncryptedSeed: "s", SidEncryptedAccount: "a"}, Proof: proof}
 		return w.Deliver("did-binding", creator, map[string]interface{}{"c17.case": cs, "c17.proof_valid": valid}, m)
 	}
+	// deterministic prefix: an address links itself to a key DID; blocks later the same address tries a second key
+	// DID and another address tries to take over the first one
+	{
+		k0, k1 := actors.NewKeyDid("kfix0"), actors.NewKeyDid("kfix1")
+		u0, u1 := funded[0], funded[1]
+		w.Deliver("did-payaddr", u0, map[string]interface{}{"c17.case": "key/first-link"}, &didtypes.MsgUpdatePaymentAddress{Creator: u0.Addr.String(), AccountId: u0.AccountID(), Did: k0.Did})
+		w.EndBlock()
+		w.EndBlock()
+		w.Deliver("did-payaddr", u0, map[string]interface{}{"c17.case": "key/second-key-did-for-linked-address"}, &didtypes.MsgUpdatePaymentAddress{Creator: u0.Addr.String(), AccountId: u0.AccountID(), Did: k1.Did})
+		w.Deliver("did-payaddr", u1, map[string]interface{}{"c17.case": "key/takeover-of-linked-key-did"}, &didtypes.MsgUpdatePaymentAddress{Creator: u1.Addr.String(), AccountId: u1.AccountID(), Did: k0.Did})
+		w.EndBlock()
+	}
 	ops := int(ctx.ArgInt("ops", 120))
 	for i := 0; i < ops && !w.Halted(); i++ {
 		acct := funded[r.Intn(n)]
@@ -438,6 +450,9 @@ func scnDidReg(ctx *check.JobCtx) {
 				w.Deliver("did-payaddr", acct, map[string]interface{}{"c17.case": cs}, m)
 			} else {
 				kd := actors.NewKeyDid(fmt.Sprintf("k%d", r.Intn(5)))
+				if r.Intn(2) == 0 {
+					other = acct // an address registering itself (the only accepted form), possibly for a second key DID
+				}
 				m := &didtypes.MsgUpdatePaymentAddress{Creator: acct.Addr.String(), AccountId: other.AccountID(), Did: kd.Did}
 				_, had := st.PayAddr[kd.Did]
 				cs := fmt.Sprintf("key/self=%v/already-set=%v/addr-linked=%v", acct == other, had, st.Kid[other.Addr.String()] != "")
